@@ -30,8 +30,8 @@ TOL = 1e-9
 def _flav(tier):
     big = tier == "thorough"
     return st.one_of(
-        mdp_specs("discounted", max_states=6 if big else 5),
-        mdp_specs("negative", max_states=6 if big else 5),
+        mdp_specs("discounted", max_states=6 if big else 5, p0_zero_entries=True),
+        mdp_specs("negative", max_states=6 if big else 5, p0_zero_entries=True),
         mdp_specs("discounted", max_states=7 if big else 5, max_actions=2),
     )
 
